@@ -50,6 +50,7 @@ inductive CallStmt
   | callPull                 -- `seg, ok := p.segmentQueue.pull(ctx); if !ok { return }`
   | callProcess              -- `p.processSegment(ctx, seg)` (returns on error)
   | ifNilBegin               -- `if seg == nil {`
+  | ifNoHintBegin            -- `if pl.PreloadHint == nil {`  (runLowLatency, after the playlist reload; fix-F28)
   | ret
   deriving DecidableEq, Repr
 
